@@ -4,8 +4,9 @@
 From MV Require Import C08.Model C08.ProofsMem.
 Local Open Scope Z_scope.
 
-Record msg := { m_at : Z; m_nb : Z; m_data : list Z }.
-Definition m_nc (m : msg) : Z := cal_cachelines (m_nb m).
+(* a committed message: line of its header, length, footprint in lines (the n_cachelines word of its header:
+   CAL_BYTES_CACHELINE(n_bytes) for w_alloc_bytes, anything at least that for w_alloc_cachelines), bytes *)
+Record msg := { m_at : Z; m_nb : Z; m_nc : Z; m_data : list Z }.
 
 Definition msg_ok (mm : list Z) (m : msg) : Prop :=
   m_nb m < 2147483648 /\ hdr_nbytes mm (m_at m) = m_nb m /\ hdr_ncl mm (m_at m) = m_nc m /\
@@ -15,7 +16,7 @@ Definition msg_ok (mm : list Z) (m : msg) : Prop :=
 Fixpoint tiles (a : Z) (q : list msg) (b : Z) : Prop :=
   match q with
   | [] => a = b
-  | m :: q' => m_at m = a /\ 1 <= m_nb m /\ tiles (a + m_nc m) q' b
+  | m :: q' => m_at m = a /\ (1 <= m_nb m /\ cal_cachelines (m_nb m) <= m_nc m) /\ tiles (a + m_nc m) q' b
   end.
 
 Lemma cal_bounds nb : 1 <= nb -> 3 <= cal_cachelines nb /\ HDR + nb <= CL * (cal_cachelines nb - 2) /\
@@ -31,32 +32,38 @@ Proof.
   assert ((8 + nb + (64 - 1)) / 64 < 33554434) by (apply Z.div_lt_upper_bound; lia). lia.
 Qed.
 
+(* a footprint that holds the message: at least 3 lines, payload inside all but the last two *)
+Lemma nc_bounds nb nc : 1 <= nb /\ cal_cachelines nb <= nc -> 3 <= nc /\ HDR + nb <= CL * (nc - 2).
+Proof. intros [H1 H2]. pose proof (cal_bounds nb H1). unfold CL, HDR in *. lia. Qed.
+
 Lemma tiles_le a q b : tiles a q b -> a <= b.
 Proof.
   revert a. induction q as [|m q IH]; simpl; intros a H; [lia|].
-  destruct H as (_ & Hn & H). apply IH in H. pose proof (cal_bounds _ Hn). unfold m_nc in *. lia.
+  destruct H as (_ & Hn & H). apply IH in H. pose proof (nc_bounds _ _ Hn). lia.
 Qed.
 Lemma tiles_eq_nil a q : tiles a q a -> q = [].
 Proof.
   destruct q as [|m q]; simpl; [reflexivity|]. intros (_ & Hn & H).
-  apply tiles_le in H. pose proof (cal_bounds _ Hn). unfold m_nc in *. lia.
+  apply tiles_le in H. pose proof (nc_bounds _ _ Hn). lia.
 Qed.
-Lemma tiles_app a q b m : tiles a q b -> m_at m = b -> 1 <= m_nb m -> tiles a (q ++ [m]) (b + m_nc m).
+Lemma tiles_app a q b m : tiles a q b -> m_at m = b -> 1 <= m_nb m /\ cal_cachelines (m_nb m) <= m_nc m ->
+  tiles a (q ++ [m]) (b + m_nc m).
 Proof.
   revert a. induction q as [|x q IH]; simpl; intros a H E Hn.
-  - subst. repeat split; auto.
-  - destruct H as (A & B & C). repeat split; auto.
+  - subst. destruct Hn. repeat split; auto.
+  - destruct H as (A & [B1 B2] & C). repeat split; auto.
 Qed.
 (* every message of a tiling lies inside [a, b) *)
-Lemma tiles_in a q b m : tiles a q b -> In m q -> a <= m_at m /\ m_at m + m_nc m <= b /\ 1 <= m_nb m.
+Lemma tiles_in a q b m : tiles a q b -> In m q ->
+  a <= m_at m /\ m_at m + m_nc m <= b /\ (1 <= m_nb m /\ cal_cachelines (m_nb m) <= m_nc m).
 Proof.
   revert a. induction q as [|x q IH]; simpl; intros a H Hin; [contradiction|].
   destruct H as (A & B & C). destruct Hin as [->|Hin].
-  - apply tiles_le in C. lia.
-  - destruct (IH _ C Hin) as (D & E & F). pose proof (cal_bounds _ B). unfold m_nc in *. lia.
+  - apply tiles_le in C. pose proof (nc_bounds _ _ B). lia.
+  - destruct (IH _ C Hin) as (D & E & F). pose proof (nc_bounds _ _ B). lia.
 Qed.
 
-Ltac psimpl := cbn [hr h_alloc h_fetched n_cl wcur rcur crem w_hdr r_hdr mem m_at m_nb m_data fst snd] in *.
+Ltac psimpl := cbn [hr h_alloc h_fetched n_cl wcur rcur crem w_hdr r_hdr mem m_at m_nb m_nc m_data fst snd] in *.
 
 Section Seq.
 Variable n : Z.
@@ -72,8 +79,8 @@ Definition pend_ok (s : ring) (pend : option (Z * Z)) : Prop :=
   | None => True
   | Some (off, nb) =>
     off = CL * wcur s + HDR /\ w_hdr s = wcur s /\ 1 <= nb < 2147483648 /\
-    hdr_nbytes (mem s) (wcur s) = nb /\ hdr_ncl (mem s) (wcur s) = cal_cachelines nb /\
-    cal_cachelines nb <= crem s
+    hdr_nbytes (mem s) (wcur s) = nb /\ cal_cachelines nb <= hdr_ncl (mem s) (wcur s) /\
+    hdr_ncl (mem s) (wcur s) <= crem s
   end.
 
 Record RInv (s : ring) (q : list msg) : Prop := {
@@ -96,7 +103,8 @@ Definition gstep (h : harness) (q : list msg) (o : op) : list msg :=
   match o with
   | OCommit =>
     match h_alloc h with
-    | Some (off, nb) => q ++ [{| m_at := wcur (hr h); m_nb := nb; m_data := sub (mem (hr h)) off nb |}]
+    | Some (off, nb) => q ++ [{| m_at := wcur (hr h); m_nb := nb; m_nc := hdr_ncl (mem (hr h)) (wcur (hr h));
+                                  m_data := sub (mem (hr h)) off nb |}]
     | None => q
     end
   | ORMove => if h_fetched h then tl q else q
@@ -113,7 +121,8 @@ Qed.
 
 (* where the unread messages are, in terms of lines: outside [w, w + crem] *)
 Lemma free_area s q m : 0 <= crem s -> 0 <= wcur s <= n - 1 -> 0 <= rcur s <= n - 1 -> shape s q -> In m q ->
-  1 <= m_nb m /\ (m_at m + m_nc m <= wcur s \/ wcur s + crem s + 1 <= m_at m) /\ 0 <= m_at m /\ m_at m + m_nc m <= n.
+  (1 <= m_nb m /\ cal_cachelines (m_nb m) <= m_nc m) /\
+  (m_at m + m_nc m <= wcur s \/ wcur s + crem s + 1 <= m_at m) /\ 0 <= m_at m /\ m_at m + m_nc m <= n.
 Proof.
   intros Hc Hw Hr [(A & B & C)|(A & q1 & q2 & p & E & B1 & P & M & B2 & C)] Hin.
   - destruct (tiles_in _ _ _ _ B Hin) as (D & F & G). pose proof (tiles_le _ _ _ B). lia.
@@ -124,14 +133,15 @@ Qed.
 
 (* frame rule: a blit confined to lines [x, y) leaves intact a message that lies outside *)
 Lemma msg_ok_blit mm m off d x y :
-  Z.of_nat (length mm) = CL * n -> msg_ok mm m -> 1 <= m_nb m -> 0 <= m_at m -> m_at m + m_nc m <= n ->
+  Z.of_nat (length mm) = CL * n -> msg_ok mm m -> 1 <= m_nb m /\ cal_cachelines (m_nb m) <= m_nc m ->
+  0 <= m_at m -> m_at m + m_nc m <= n ->
   0 <= x -> CL * x <= off -> off + Z.of_nat (length d) <= CL * y -> y <= n ->
   m_at m + m_nc m <= x \/ y <= m_at m ->
   msg_ok (blit mm off d) m.
 Proof.
   intros L (A & B & C & D) N1 N2 N3 X1 X2 X3 X4 Dis.
-  pose proof (cal_bounds _ N1) as (K1 & K2 & K3). unfold m_nc in *. unfold CL, HDR in *.
-  unfold msg_ok, hdr_nbytes, hdr_ncl, m_nc in *. unfold CL, HDR in *.
+  pose proof (nc_bounds _ _ N1) as (K1 & K2). destruct N1 as [N1 N1']. unfold CL, HDR in *.
+  unfold msg_ok, hdr_nbytes, hdr_ncl in *. unfold CL, HDR in *.
   rewrite !sub_blit_other by lia. auto.
 Qed.
 Lemma hdrn_blit mm p off d x y :
@@ -144,7 +154,8 @@ Proof.
 Qed.
 
 Lemma set_hdr_as_frame mm l nb nc m :
-  Z.of_nat (length mm) = CL * n -> 0 <= l < n -> msg_ok mm m -> 1 <= m_nb m -> 0 <= m_at m -> m_at m + m_nc m <= n ->
+  Z.of_nat (length mm) = CL * n -> 0 <= l < n -> msg_ok mm m -> 1 <= m_nb m /\ cal_cachelines (m_nb m) <= m_nc m ->
+  0 <= m_at m -> m_at m + m_nc m <= n ->
   m_at m + m_nc m <= l \/ l + 1 <= m_at m ->
   msg_ok (set_hdr mm l nb nc) m.
 Proof.
@@ -228,13 +239,12 @@ Proof.
   intros [In Il Iw Ir Ic Iok [(A & B & C)|(A & q1 & q2 & p & E & B1 & P & M & B2 & C)]]; lia.
 Qed.
 
-Lemma finish_inv s q nb : RInv s q -> 1 <= nb < 2147483648 -> cal_cachelines nb <= crem s ->
-  let s' := fst (alloc_finish s nb (cal_cachelines nb)) in
+Lemma finish_inv s q nb nc : RInv s q -> 1 <= nb < 2147483648 -> cal_cachelines nb <= nc -> nc <= crem s ->
+  let s' := fst (alloc_finish s nb nc) in
   RInv s' q /\ pend_ok s' (Some (CL * wcur s + HDR, nb)) /\
   wcur s' = wcur s /\ rcur s' = rcur s /\ r_hdr s' = r_hdr s /\ crem s' = crem s.
 Proof.
-  intros I Hnb Hc. pose proof (crem_room s q I) as Room. pose proof (cal_bounds nb ltac:(lia)) as (K1 & K2 & K3).
-  pose proof (cal_lt nb Hnb) as K4.
+  intros I Hnb Hnc Hc. pose proof (crem_room s q I) as Room. pose proof (cal_bounds nb ltac:(lia)) as (K1 & K2 & K3).
   pose proof I as I0. destruct I as [In Il Iw Ir Ic Iok Ish]. unfold alloc_finish. psimpl.
   split; [|split; [|repeat split; reflexivity]].
   - constructor; psimpl; auto.
@@ -244,35 +254,54 @@ Proof.
       right. psimpl. split; [lia|]. exists q1, q2, p. repeat split; auto.
       pose proof (tiles_le _ _ _ B1).
       rewrite set_hdr_hdrn_frame; auto; lia.
-  - unfold pend_ok. psimpl. repeat split; auto; try lia.
-    + apply (hdr_nbytes_set (mem s) n Il); lia.
-    + apply (hdr_ncl_set (mem s) n Il); lia.
+  - unfold pend_ok. psimpl.
+    rewrite (hdr_nbytes_set (mem s) n Il) by lia. rewrite (hdr_ncl_set (mem s) n Il) by lia.
+    repeat split; auto; lia.
 Qed.
 
-Lemma step_inv h q o : Inv h q -> Inv (fst (step h o)) (gstep h q o).
+(* both allocation entry points: w_alloc_cachelines with a footprint that holds the message *)
+Lemma alloc_cl_inv h q nb nc : Inv h q -> 1 <= nb < 2147483648 -> cal_cachelines nb <= nc < 2147483648 ->
+  Inv {| hr := fst (w_alloc_cachelines (hr h) nb nc);
+         h_alloc := match snd (w_alloc_cachelines (hr h) nb nc) with Some off => Some (off, nb) | None => h_alloc h end;
+         h_fetched := h_fetched h |} q.
 Proof.
-  intros [IR IP IF]. destruct o as [nb|a d| | |]; unfold step.
+  intros [IR IP IF] G Gc.
+  pose proof (cal_bounds nb ltac:(lia)) as (K1 & K2 & K3).
+  unfold w_alloc_cachelines.
+  destruct (Z.ltb_spec (crem (hr h)) nc) as [C|C].
+  + destruct (upd_inv (hr h) q nc IR ltac:(lia)) as (U1 & U2 & U3 & U4 & U5).
+    set (s1 := update_cached_remain (hr h) nc) in *.
+    destruct (Z.ltb_spec (crem s1) nc) as [C1|C1].
+    * (* refused: only cached_remain may have grown *)
+      psimpl. constructor; psimpl; auto.
+      -- destruct U5 as [(W & M & CC)|(_ & _ & ? & _)]; [|lia].
+         destruct (h_alloc h) as [[off nb0]|]; [|exact I]. unfold pend_ok in *.
+         rewrite W, M, U4. intuition lia.
+      -- rewrite U2, U3. exact IF.
+    * destruct (finish_inv s1 q nb nc U1 ltac:(lia) ltac:(lia) C1) as (F1 & F2 & F3 & F4 & F5 & F6).
+      unfold alloc_finish in *. psimpl. constructor; psimpl; auto.
+      rewrite U2, U3. exact IF.
+  + destruct (finish_inv (hr h) q nb nc IR ltac:(lia) ltac:(lia) C) as (F1 & F2 & F3 & F4 & F5 & F6).
+    unfold alloc_finish in *. psimpl. constructor; psimpl; auto.
+Qed.
+
+Lemma step_inv h q o : sized_op o -> Inv h q -> Inv (fst (step h o)) (gstep h q o).
+Proof.
+  intros Hsz I0. pose proof I0 as [IR IP IF]. destruct o as [nb|nb nc|a d| | |]; unfold step; cbn [sized_op] in Hsz.
   - (* alloc *)
     cbn [gstep].
-    destruct ((1 <=? nb) && (nb <? 2147483648)) eqn:G; [|constructor; psimpl; auto; try exact IP; rewrite EA; exact IP].
-    apply andb_prop in G as [G1 G2]. apply Z.leb_le in G1. apply Z.ltb_lt in G2.
-    pose proof (cal_bounds nb G1) as (K1 & K2 & K3). pose proof (cal_lt nb ltac:(lia)) as K4.
-    unfold w_alloc_bytes, w_alloc_cachelines.
-    destruct (Z.ltb_spec (crem (hr h)) (cal_cachelines nb)) as [C|C].
-    + destruct (upd_inv (hr h) q (cal_cachelines nb) IR ltac:(lia)) as (U1 & U2 & U3 & U4 & U5).
-      set (s1 := update_cached_remain (hr h) (cal_cachelines nb)) in *.
-      destruct (Z.ltb_spec (crem s1) (cal_cachelines nb)) as [C1|C1].
-      * (* refused: only cached_remain may have grown *)
-        psimpl. constructor; psimpl; auto.
-        -- destruct U5 as [(W & M & CC)|(_ & _ & ? & _)]; [|lia].
-           destruct (h_alloc h) as [[off nb0]|]; [|exact I]. unfold pend_ok in *.
-           rewrite W, M, U4. intuition lia.
-        -- rewrite U2, U3. exact IF.
-      * destruct (finish_inv s1 q nb U1 ltac:(lia) C1) as (F1 & F2 & F3 & F4 & F5 & F6).
-        unfold alloc_finish in *. psimpl. constructor; psimpl; auto.
-        rewrite U2, U3. exact IF.
-    + destruct (finish_inv (hr h) q nb IR ltac:(lia) C) as (F1 & F2 & F3 & F4 & F5 & F6).
-      unfold alloc_finish in *. psimpl. constructor; psimpl; auto.
+    destruct ((0 <=? nb) && (nb <? 2147483648)) eqn:G; [|exact I0].
+    apply andb_prop in G as [G1 G2]. apply Z.leb_le in G1. apply Z.ltb_lt in G2. clear G1. pose proof Hsz as G1.
+    pose proof (cal_lt nb ltac:(lia)) as K4.
+    pose proof (alloc_cl_inv h q nb (cal_cachelines nb) I0 ltac:(lia) ltac:(lia)) as X.
+    unfold w_alloc_bytes. destruct (w_alloc_cachelines (hr h) nb (cal_cachelines nb)) as [s' r]. exact X.
+  - (* alloc with an explicit footprint *)
+    cbn [gstep].
+    destruct ((0 <=? nb) && (nb <? 2147483648) && (cal_cachelines nb <=? nc) && (nc <? 2147483648)) eqn:G; [|exact I0].
+    apply andb_prop in G as [G G4]. apply andb_prop in G as [G G3]. apply andb_prop in G as [G1 G2].
+    apply Z.leb_le in G1. apply Z.ltb_lt in G2. apply Z.leb_le in G3. apply Z.ltb_lt in G4. clear G1. pose proof Hsz as G1.
+    pose proof (alloc_cl_inv h q nb nc I0 ltac:(lia) ltac:(lia)) as X.
+    destruct (w_alloc_cachelines (hr h) nb nc) as [s' r]. exact X.
   - (* user write into the allocated region *)
     cbn [gstep]. destruct (h_alloc h) as [[off nb]|] eqn:EA; [|constructor; psimpl; auto; try exact IP; rewrite EA; exact IP].
     destruct ((0 <=? a) && (a + Z.of_nat (length d) <=? nb)) eqn:G; [|constructor; psimpl; auto; try exact IP; rewrite EA; exact IP].
@@ -293,23 +322,26 @@ Proof.
         right. psimpl. split; [lia|]. exists q1, q2, p. repeat split; auto.
         pose proof (tiles_le _ _ _ T1). rewrite <- M.
         apply hdrn_blit with (x := w) (y := w + need - 2); auto; unfold CL, HDR in *; fold w in A, C; lia.
-    + unfold pend_ok. fold w. repeat split; auto; try lia.
-      * etransitivity; [|exact P4]. unfold hdr_nbytes. f_equal. apply sub_blit_other; unfold CL, HDR in *; lia.
-      * etransitivity; [|exact P5]. unfold hdr_ncl. f_equal. apply sub_blit_other; unfold CL, HDR in *; lia.
+    + unfold pend_ok. psimpl. fold w.
+      assert (E1 : hdr_nbytes (blit (mem (hr h)) (off + a) d) w = hdr_nbytes (mem (hr h)) w).
+      { unfold hdr_nbytes. f_equal. apply sub_blit_other; unfold CL, HDR in *; lia. }
+      assert (E2 : hdr_ncl (blit (mem (hr h)) (off + a) d) w = hdr_ncl (mem (hr h)) w).
+      { unfold hdr_ncl. f_equal. apply sub_blit_other; unfold CL, HDR in *; lia. }
+      rewrite E1, E2. repeat split; auto; lia.
   - (* commit *)
     cbn [gstep]. destruct (h_alloc h) as [[off nb]|] eqn:EA; [|constructor; psimpl; auto; try exact IP; rewrite EA; exact IP].
     unfold pend_ok in IP. destruct IP as (P1 & P2 & P3 & P4 & P5 & P6).
     pose proof (cal_bounds nb ltac:(lia)) as (K1 & K2 & K3).
     pose proof (crem_room _ _ IR) as Room.
-    destruct IR as [In Il Iw Ir Ic Iok Ish]. unfold w_move. psimpl. rewrite P2, P5.
-    set (w := wcur (hr h)) in *. set (need := cal_cachelines nb) in *.
+    destruct IR as [In Il Iw Ir Ic Iok Ish]. unfold w_move. psimpl. rewrite P2.
+    set (w := wcur (hr h)) in *. set (need := hdr_ncl (mem (hr h)) w) in *.
     rewrite (u32_id (w + need)) by lia. rewrite (u32_id (crem (hr h) - need)) by lia.
-    set (m := {| m_at := w; m_nb := nb; m_data := sub (mem (hr h)) off nb |}).
+    set (m := {| m_at := w; m_nb := nb; m_nc := need; m_data := sub (mem (hr h)) off nb |}).
     assert (Tm : forall a qq, tiles a qq w -> tiles a (qq ++ [m]) (w + need)).
     { intros a qq T. apply (tiles_app a qq w m T); subst m; psimpl; auto; lia. }
     constructor; psimpl; [constructor; psimpl; auto; try lia| exact I |].
     + apply Forall_app. split; [exact Iok|]. constructor; [|constructor].
-      unfold msg_ok, m_nc. subst m. psimpl. repeat split; auto; try lia. rewrite P1. reflexivity.
+      unfold msg_ok. subst m. psimpl. repeat split; auto; try lia. rewrite P1. reflexivity.
     + destruct Ish as [(A & B & C)|(A & q1 & q2 & p & E & T1 & P & M & T2 & C)].
       * left. psimpl. repeat split; auto; try lia.
       * right. psimpl. split; [lia|]. exists q1, (q2 ++ [m]), p. subst q. rewrite app_assoc.
@@ -327,9 +359,9 @@ Proof.
         destruct Ok as (_ & O2 & _). rewrite <- At, O2. apply Z.eqb_neq. lia. }
       destruct Ish as [(A & T & C)|(A & q1 & q2 & p & Eq & T1 & P & M & T2 & C)].
       * (* r < w: the oldest message starts at r *)
-        destruct q as [|m q']; [simpl in T; lia|]. simpl in T. destruct T as (At & Nb & T).
+        destruct q as [|m q']; [simpl in T; lia|]. simpl in T. destruct T as (At & [Nb Nc] & T).
         rewrite (Hhead m q' eq_refl At Nb). cbn [negb]. psimpl.
-        constructor; psimpl; [constructor; psimpl; auto; left; psimpl; simpl; auto | exact IP |].
+        constructor; psimpl; [constructor; psimpl; auto; left; psimpl; simpl; repeat split; auto | exact IP |].
         intros _. exists m, q'. auto.
       * destruct q1 as [|m q1'].
         -- (* the reader sits on the wrap marker *)
@@ -338,14 +370,14 @@ Proof.
            ++ psimpl. constructor; psimpl; [constructor; psimpl; auto | exact IP | ].
               2:{ intros Hf'. destruct (IF Hf') as (m0 & q0 & ? & ? & ?). exists m0, q0. auto. }
               right. psimpl. split; [lia|]. exists [], q, (rcur (hr h)). simpl. repeat split; auto.
-           ++ destruct q as [|m q']; [simpl in T2; lia|]. simpl in T2. destruct T2 as (At & Nb & T2).
+           ++ destruct q as [|m q']; [simpl in T2; lia|]. simpl in T2. destruct T2 as (At & [Nb Nc] & T2).
               inversion Iok as [|? ? Ok _]; subst. destruct Ok as (_ & O2 & _).
               rewrite At in O2. rewrite O2. replace (m_nb m =? 0) with false by (symmetry; apply Z.eqb_neq; lia).
               cbn [negb]. psimpl.
               constructor; psimpl; [constructor; psimpl; auto; try lia| exact IP |].
               ** left. psimpl. simpl. repeat split; auto; lia.
               ** intros _. exists m, q'. auto.
-        -- simpl in T1. destruct T1 as (At & Nb & T1). subst q. simpl in Hhead.
+        -- simpl in T1. destruct T1 as (At & [Nb Nc] & T1). subst q. simpl in Hhead.
            rewrite (Hhead m (q1' ++ q2) eq_refl At Nb). cbn [negb]. psimpl.
            constructor; psimpl; [constructor; psimpl; auto| exact IP |].
            ++ right. psimpl. split; [lia|]. exists (m :: q1'), q2, p. simpl. repeat split; auto.
@@ -356,13 +388,13 @@ Proof.
     destruct IR as [In Il Iw Ir Ic Iok Ish].
     inversion Iok as [|? ? Ok Iok']; subst. destruct Ok as (O1 & O2 & O3 & O4).
     unfold r_move, set_r. psimpl. rewrite Rh, <- At, O3.
-    assert (Nb : 1 <= m_nb m).
+    assert (Nb : 1 <= m_nb m /\ cal_cachelines (m_nb m) <= m_nc m).
     { destruct Ish as [(A & T & C)|(A & q1 & q2 & p & Eq & T1 & P & M & T2 & C)].
       - simpl in T. tauto.
       - destruct q1 as [|x q1']; simpl in Eq.
         + subst q2. simpl in T2. tauto.
         + inversion Eq; subst. simpl in T1. tauto. }
-    pose proof (cal_bounds _ Nb) as (K1 & K2 & K3). fold (m_nc m) in K1, K2, K3.
+    pose proof (nc_bounds _ _ Nb) as (K1 & K2).
     constructor; psimpl; [constructor; psimpl; auto| | discriminate].
     + destruct Ish as [(A & T & C)|(A & q1 & q2 & p & Eq & T1 & P & M & T2 & C)].
       * simpl in T. destruct T as (_ & _ & T). pose proof (tiles_le _ _ _ T). rewrite u32_id by lia. lia.
@@ -401,18 +433,18 @@ Proof.
   - destruct Ish as [(A & T & C)|(A & _)]; [|lia]. rewrite E in T. apply tiles_eq_nil in T. subst q. reflexivity.
   - unfold set_r. psimpl.
     destruct Ish as [(A & T & C)|(A & q1 & q2 & p & Eq & T1 & P & M & T2 & C)].
-    + destruct q as [|m q']; [simpl in T; lia|]. simpl in T. destruct T as (At & Nb & T).
+    + destruct q as [|m q']; [simpl in T; lia|]. simpl in T. destruct T as (At & [Nb Nc] & T).
       destruct (Hhead m q' eq_refl Nb) as (H1 & H2 & H3). rewrite <- At. rewrite H1. cbn [negb]. psimpl.
       rewrite H2, H3. reflexivity.
     + destruct q1 as [|m q1'].
       * simpl in T1. subst p. simpl in Eq. subst q2. rewrite M. cbn [negb Z.eqb]. psimpl.
         destruct (Z.eqb_spec (wcur (hr h)) 0) as [W0|W0].
         -- rewrite W0 in T2. apply tiles_eq_nil in T2. subst q. reflexivity.
-        -- destruct q as [|m q']; [simpl in T2; lia|]. simpl in T2. destruct T2 as (At & Nb & T2).
+        -- destruct q as [|m q']; [simpl in T2; lia|]. simpl in T2. destruct T2 as (At & [Nb Nc] & T2).
            destruct (Hhead m q' eq_refl Nb) as (H1 & H2 & H3). rewrite At in H1, H2, H3.
            rewrite H1. cbn [negb]. psimpl. rewrite H2, At. change (CL * 0 + HDR) with (CL * 0 + HDR) in *.
            rewrite H3. reflexivity.
-      * simpl in T1. destruct T1 as (At & Nb & T1). subst q. simpl.
+      * simpl in T1. destruct T1 as (At & [Nb Nc] & T1). subst q. simpl.
         destruct (Hhead m (q1' ++ q2) eq_refl Nb) as (H1 & H2 & H3). rewrite <- At. rewrite H1. cbn [negb]. psimpl.
         rewrite H2, H3. reflexivity.
 Qed.
@@ -425,7 +457,7 @@ Proof.
   intros [IR _ _] Hin. destruct IR as [In Il Iw Ir Ic Iok Ish].
   destruct (free_area _ _ _ Ic Iw Ir Ish Hin) as (A & B & C & D).
   rewrite Forall_forall in Iok. destruct (Iok m Hin) as (O1 & O2 & O3 & O4).
-  pose proof (cal_bounds _ A) as (K1 & K2 & K3). unfold m_nc in *.
+  pose proof (nc_bounds _ _ A) as (K1 & K2).
   rewrite <- O4. rewrite sub_length; unfold CL, HDR in *; lia.
 Qed.
 
@@ -436,12 +468,12 @@ Fixpoint fifo_ok (h : harness) (q : list msg) (ops : list op) : Prop :=
   | o :: r => (o = OFetch -> snd (step h o) = expected_fetch q) /\ fifo_ok (fst (step h o)) (gstep h q o) r
   end.
 
-Lemma fifo_ok_inv ops : forall h q, Inv h q -> fifo_ok h q ops.
+Lemma fifo_ok_inv ops : forall h q, sized ops -> Inv h q -> fifo_ok h q ops.
 Proof.
-  induction ops as [|o r IH]; intros h q I; simpl; [exact Logic.I|].
-  split.
+  induction ops as [|o r IH]; intros h q Hs I; simpl; [exact Logic.I|].
+  inversion Hs as [|? ? Ho Hr]; subst. split.
   - intros ->. apply fetch_spec. exact I.
-  - apply IH. apply step_inv. exact I.
+  - apply IH; [exact Hr|]. apply step_inv; [exact Ho|exact I].
 Qed.
 
 (* reachable harness states with their ghost FIFO *)
@@ -450,9 +482,10 @@ Fixpoint reach (h : harness) (q : list msg) (ops : list op) : harness * list msg
   | [] => (h, q)
   | o :: r => reach (fst (step h o)) (gstep h q o) r
   end.
-Lemma reach_inv ops : forall h q, Inv h q -> Inv (fst (reach h q ops)) (snd (reach h q ops)).
+Lemma reach_inv ops : forall h q, sized ops -> Inv h q -> Inv (fst (reach h q ops)) (snd (reach h q ops)).
 Proof.
-  induction ops as [|o r IH]; intros h q I; simpl; [exact I|]. apply IH. apply step_inv. exact I.
+  induction ops as [|o r IH]; intros h q Hs I; simpl; [exact I|]. inversion Hs as [|? ? Ho Hr]; subst.
+  apply IH; [exact Hr|]. apply step_inv; [exact Ho|exact I].
 Qed.
 Lemma reach_run ops : forall h q, fst (reach h q ops) = fst (run h ops).
 Proof.
@@ -468,7 +501,8 @@ Definition live_marker (s : ring) (q : list msg) (p : Z) : Prop :=
   hdr_nbytes (mem s) p = 0.
 
 Lemma pend_region_free h q off nb : Inv h q -> h_alloc h = Some (off, nb) ->
-  let a := wcur (hr h) in let need := cal_cachelines nb in
+  let a := wcur (hr h) in let need := hdr_ncl (mem (hr h)) a in
+  cal_cachelines nb <= need /\
   off = CL * a + HDR /\ 0 <= a /\ a + need <= n - 1 /\ off + nb <= CL * (a + need - 2) /\
   Forall (fun m => m_at m + m_nc m <= a \/ a + need <= m_at m) q /\
   (forall p, live_marker (hr h) q p -> a + need <= p).
@@ -476,31 +510,46 @@ Proof.
   intros [IR IP IF] EA. rewrite EA in IP. destruct IP as (P1 & P2 & P3 & P4 & P5 & P6).
   pose proof (crem_room _ _ IR) as Room. pose proof (cal_bounds nb ltac:(lia)) as (K1 & K2 & K3).
   destruct IR as [In Il Iw Ir Ic Iok Ish]. cbv zeta. repeat split; auto; try lia.
+  - unfold CL, HDR in *. lia.
   - apply Forall_forall. intros m Hin. destruct (free_area _ _ _ Ic Iw Ir Ish Hin) as (A & B & C & D). lia.
   - intros p (A & q1 & q2 & Eq & T1 & T2 & M).
     destruct Ish as [(B & _)|(_ & q1' & q2' & p' & Eq' & T1' & P' & M' & T2' & C)]; [lia|].
     pose proof (tiles_le _ _ _ T1). lia.
 Qed.
 
+(* the header written by a successful allocation carries exactly the requested footprint *)
+Lemma alloc_cl_hdr s q nb nc s' off : RInv s q -> 3 <= nc < 2147483648 ->
+  w_alloc_cachelines s nb nc = (s', Some off) -> hdr_ncl (mem s') (wcur s') = nc.
+Proof.
+  intros IR Hnc. unfold w_alloc_cachelines.
+  assert (F : forall s1, RInv s1 q -> alloc_finish s1 nb nc = (s', Some off) -> hdr_ncl (mem s') (wcur s') = nc).
+  { intros s1 [In Il Iw Ir Ic Iok Ish] E. unfold alloc_finish in E. inversion E; subst. psimpl.
+    apply (hdr_ncl_set (mem s1) n Il); lia. }
+  destruct (Z.ltb_spec (crem s) nc) as [C|C].
+  - destruct (upd_inv s q nc IR ltac:(lia)) as (U1 & _).
+    destruct (crem (update_cached_remain s nc) <? nc); [discriminate|]. apply F. exact U1.
+  - apply F. exact IR.
+Qed.
+
 End Seq.
 
 (* ---- statements used by Properties_C08.v ---- *)
-Lemma seq_refines_fifo n ops : 1 <= n < 2147483648 -> fifo_ok (hinit n) [] ops.
-Proof. intros H. apply (fifo_ok_inv n H). apply init_inv. exact H. Qed.
+Lemma seq_refines_fifo n ops : 1 <= n < 2147483648 -> sized ops -> fifo_ok (hinit n) [] ops.
+Proof. intros H Hs. apply (fifo_ok_inv n H); [exact Hs|]. apply init_inv. exact H. Qed.
 
-Lemma seq_reachable_facts n ops : 1 <= n < 2147483648 ->
+Lemma seq_reachable_facts n ops : 1 <= n < 2147483648 -> sized ops ->
   let h := fst (reach (hinit n) [] ops) in let q := snd (reach (hinit n) [] ops) in
   h = fst (run (hinit n) ops) /\
   snd (step h OFetch) = expected_fetch q /\
   Forall (fun m => Z.of_nat (length (m_data m)) = m_nb m /\ 1 <= m_nb m) q.
 Proof.
-  intros H h q. pose proof (reach_inv n H ops (hinit n) [] (init_inv n H)) as I. fold h q in I.
+  intros H Hs h q. pose proof (reach_inv n H ops (hinit n) [] Hs (init_inv n H)) as I. fold h q in I.
   split; [apply reach_run|]. split; [apply (fetch_spec n); auto|].
   apply Forall_forall. intros m Hin. split; [apply (msg_len n h q m I Hin)|].
   destruct I as [[In Il Iw Ir Ic Iok Ish] _ _]. destruct (free_area n _ _ _ Ic Iw Ir Ish Hin). tauto.
 Qed.
 
-Lemma alloc_no_overlap n ops nb h' off : 1 <= n < 2147483648 ->
+Lemma alloc_no_overlap n ops nb h' off : 1 <= n < 2147483648 -> sized ops -> 1 <= nb ->
   let h := fst (reach (hinit n) [] ops) in let q := snd (reach (hinit n) [] ops) in
   step h (OAlloc nb) = (h', RAlloc (Some off)) ->
   let a := wcur (hr h') in let need := cal_cachelines nb in
@@ -508,17 +557,48 @@ Lemma alloc_no_overlap n ops nb h' off : 1 <= n < 2147483648 ->
   Forall (fun m => m_at m + m_nc m <= a \/ a + need <= m_at m) q /\
   (forall p, live_marker (hr h') q p -> a + need <= p).
 Proof.
-  intros H h q E. pose proof (reach_inv n H ops (hinit n) [] (init_inv n H)) as I. fold h q in I.
-  pose proof (step_inv n H h q (OAlloc nb) I) as I'. rewrite E in I'. cbn [fst gstep] in I'.
-  apply (pend_region_free n h' q off nb I').
-  unfold step in E. destruct ((1 <=? nb) && (nb <? 2147483648)); [|discriminate].
-  destruct (w_alloc_bytes (hr h) nb) as [s' [o|]]; inversion E; subst; reflexivity.
+  intros H Hs Hnb h q E. pose proof (reach_inv n H ops (hinit n) [] Hs (init_inv n H)) as I. fold h q in I.
+  pose proof (step_inv n H h q (OAlloc nb) Hnb I) as I'. rewrite E in I'. cbn [fst gstep] in I'.
+  unfold step in E. destruct ((0 <=? nb) && (nb <? 2147483648)) eqn:G; [|discriminate].
+  apply andb_prop in G as [G1 G2]. apply Z.leb_le in G1. apply Z.ltb_lt in G2. clear G1. pose proof Hnb as G1.
+  pose proof (cal_bounds nb G1) as (K1 & K2 & K3). pose proof (cal_lt nb ltac:(lia)) as K4.
+  unfold w_alloc_bytes in E. destruct (w_alloc_cachelines (hr h) nb (cal_cachelines nb)) as [s' [o|]] eqn:EW; [|discriminate].
+  assert (Eh : hr h' = s' /\ h_alloc h' = Some (off, nb)) by (inversion E; subst; split; reflexivity).
+  destruct Eh as [Eh1 Eh2].
+  pose proof (alloc_cl_hdr n H (hr h) q nb (cal_cachelines nb) s' o (i_ring n _ _ I) ltac:(lia) EW) as Hh.
+  destruct (pend_region_free n h' q off nb I' Eh2) as (_ & R). cbv zeta in R. rewrite Eh1, Hh in R.
+  cbv zeta. rewrite Eh1. exact R.
+Qed.
+
+(* the same for w_alloc_cachelines with any footprint nc that holds the message: the whole of [a, a + nc) *)
+Lemma alloc_cl_no_overlap n ops nb nc h' off : 1 <= n < 2147483648 -> sized ops -> 1 <= nb ->
+  let h := fst (reach (hinit n) [] ops) in let q := snd (reach (hinit n) [] ops) in
+  step h (OAllocCl nb nc) = (h', RAlloc (Some off)) ->
+  let a := wcur (hr h') in
+  cal_cachelines nb <= nc /\
+  off = CL * a + HDR /\ 0 <= a /\ a + nc <= n - 1 /\ off + nb <= CL * (a + nc - 2) /\
+  Forall (fun m => m_at m + m_nc m <= a \/ a + nc <= m_at m) q /\
+  (forall p, live_marker (hr h') q p -> a + nc <= p).
+Proof.
+  intros H Hs Hnb h q E. pose proof (reach_inv n H ops (hinit n) [] Hs (init_inv n H)) as I. fold h q in I.
+  pose proof (step_inv n H h q (OAllocCl nb nc) Hnb I) as I'. rewrite E in I'. cbn [fst gstep] in I'.
+  unfold step in E.
+  destruct ((0 <=? nb) && (nb <? 2147483648) && (cal_cachelines nb <=? nc) && (nc <? 2147483648)) eqn:G; [|discriminate].
+  apply andb_prop in G as [G G4]. apply andb_prop in G as [G G3]. apply andb_prop in G as [G1 G2].
+  apply Z.leb_le in G1. apply Z.ltb_lt in G2. apply Z.leb_le in G3. apply Z.ltb_lt in G4. clear G1. pose proof Hnb as G1.
+  pose proof (cal_bounds nb G1) as (K1 & K2 & K3).
+  destruct (w_alloc_cachelines (hr h) nb nc) as [s' [o|]] eqn:EW; [|discriminate].
+  assert (Eh : hr h' = s' /\ h_alloc h' = Some (off, nb)) by (inversion E; subst; split; reflexivity).
+  destruct Eh as [Eh1 Eh2].
+  pose proof (alloc_cl_hdr n H (hr h) q nb nc s' o (i_ring n _ _ I) ltac:(lia) EW) as Hh.
+  pose proof (pend_region_free n h' q off nb I' Eh2) as R. cbv zeta in R. rewrite Eh1, Hh in R.
+  cbv zeta. rewrite Eh1. exact R.
 Qed.
 
 Lemma rfetch_inj a b c a' b' c' : RFetch (Some (a, b, c)) = RFetch (Some (a', b', c')) -> a = a' /\ b = b' /\ c = c'.
 Proof. intros H. inversion H. auto. Qed.
 
-Lemma indices_in_range n ops : 1 <= n < 2147483648 ->
+Lemma indices_in_range n ops : 1 <= n < 2147483648 -> sized ops ->
   let h := fst (run (hinit n) ops) in
   0 <= wcur (hr h) <= n - 1 /\ 0 <= rcur (hr h) <= n - 1 /\ 0 <= crem (hr h) /\
   wcur (hr h) + crem (hr h) <= n - 1 /\ Z.of_nat (length (mem (hr h))) = CL * n /\
@@ -526,7 +606,7 @@ Lemma indices_in_range n ops : 1 <= n < 2147483648 ->
      exists l, off = CL * l + HDR /\ 0 <= l /\ 1 <= nb /\ off + nb <= CL * (l + cal_cachelines nb - 2) /\
                l + cal_cachelines nb <= n).
 Proof.
-  intros H h. pose proof (reach_inv n H ops (hinit n) [] (init_inv n H)) as I.
+  intros H Hs h. pose proof (reach_inv n H ops (hinit n) [] Hs (init_inv n H)) as I.
   rewrite (reach_run ops (hinit n) []) in I. fold h in I. set (q := snd (reach (hinit n) [] ops)) in *.
   pose proof (crem_room n _ _ (i_ring n _ _ I)) as Room.
   pose proof (fetch_spec n h q I) as F. pose proof I as I0.
@@ -534,7 +614,8 @@ Proof.
   intros off nb bytes E. rewrite F in E. unfold expected_fetch in E. destruct q as [|m q']; [discriminate|].
   apply rfetch_inj in E. destruct E as (E1 & E2 & E3). subst off nb bytes. exists (m_at m).
   destruct (free_area n _ _ m Ic Iw Ir Ish (or_introl eq_refl)) as (A & B & C & D).
-  pose proof (cal_bounds _ A) as (K1 & K2 & K3). unfold m_nc in *. repeat split; auto; unfold CL, HDR in *; lia.
+  pose proof (nc_bounds _ _ A) as (K1 & K2). pose proof (cal_bounds _ (proj1 A)) as (K3 & K4 & K5).
+  repeat split; auto; unfold CL, HDR in *; lia.
 Qed.
 
 (* non-vacuity: on a ring of 8 lines (messages of 4 and 3 lines, the first consumed) the third
@@ -547,3 +628,29 @@ Example seq_nonvacuous :
   nth 11 rs RSkip = RFetch (Some (264, 2, [6; 7])) /\ nth 13 rs RSkip = RFetch (Some (8, 3, [8; 9; 10])) /\
   nth 15 rs RSkip = RFetch None.
 Proof. vm_compute. repeat split; reflexivity. Qed.
+
+(* non-vacuity with explicit footprints (w_alloc_cachelines): fixed 8-line slots for payloads of 10 / 47 bytes
+   (which need 3 lines): the second slot starts at line 8 (offset 520), not at line 3, and the reader's cursor
+   follows the footprint stored in the header (8), not the one recomputed from the length (3) *)
+Example seq_cl_nonvacuous :
+  let r := run (hinit 32) [OAllocCl 10 8; OWrite 0 [5]; OCommit; OAllocCl 47 8; OWrite 0 [6; 7]; OCommit;
+                           OFetch; ORMove; OFetch; ORMove; OFetch] in
+  nth 0 (snd r) RSkip = RAlloc (Some 8) /\ nth 3 (snd r) RSkip = RAlloc (Some 520) /\
+  (exists t, nth 6 (snd r) RSkip = RFetch (Some (8, 10, 5 :: t))) /\
+  (exists t, nth 8 (snd r) RSkip = RFetch (Some (520, 47, 6 :: 7 :: t))) /\
+  nth 10 (snd r) RSkip = RFetch None /\ rcur (hr (fst r)) = 16 /\ wcur (hr (fst r)) = 16.
+Proof. vm_compute. repeat split; try reflexivity; eexists; reflexivity. Qed.
+
+(* OBSERVATION outside the property's quantifier (sizes 1 byte .. half the ring): a message of length 0 is accepted
+   by w_alloc_bytes; its header (n_bytes = 0) is the wrap marker's encoding, so after it is committed the reader takes
+   it for a marker, jumps back to line 0 and is given the first message (5 bytes, already consumed) again - and
+   again after every r_move; the 0-byte message and everything committed after it are never delivered.  The model
+   executes the code as it is; the theorems above carry the hypothesis [sized]. *)
+Example zero_length_observation :
+  let rs := snd (run (hinit 16) [OAlloc 5; OWrite 0 [65; 66; 67; 68; 69]; OCommit; OFetch; ORMove;
+                                  OAlloc 0; OCommit; OFetch; ORMove; OFetch; ORMove; OFetch]) in
+  nth 3 rs RSkip = RFetch (Some (8, 5, [65; 66; 67; 68; 69])) /\ nth 5 rs RSkip = RAlloc (Some 200) /\
+  nth 7 rs RSkip = RFetch (Some (8, 5, [65; 66; 67; 68; 69])) /\ nth 9 rs RSkip = RFetch (Some (8, 5, [65; 66; 67; 68; 69])) /\
+  nth 11 rs RSkip = RFetch (Some (8, 5, [65; 66; 67; 68; 69])) /\
+  ~ sized [OAlloc 0].
+Proof. vm_compute. repeat split; try reflexivity. intros H. inversion H as [|? ? X _]; subst. vm_compute in X. apply X. reflexivity. Qed.
